@@ -347,7 +347,7 @@ func finish(rr *runResult, noReplay bool, t0 time.Time) {
 		validated = v
 		valNotes = notes
 		for _, b := range bad {
-			if rr.spec.TimedNative {
+			if rr.spec.TimedNative || isTimedHarness(b) {
 				valNotes = append(valNotes, "native run with real timers differed (scheduling jitter; not counted): "+b)
 				continue
 			}
